@@ -26,7 +26,8 @@ type Result struct {
 	Committed  int   `json:"committed"`
 	OpsApplied int   `json:"ops_applied"`
 	Faults     int64 `json:"faults"`
-	States     []uint64 `json:"-"`
+	States     []uint64 `json:"state_list,omitempty"`
+	Sample     interface{} `json:"sample,omitempty"`
 	NStates    int   `json:"n_states"`
 
 	Stats  RunStats         `json:"stats"`
@@ -106,6 +107,20 @@ func Run(cfg *Config, plan Plan) *Result {
 	if cfg.Trace {
 		res.Trace = c.Rec.trace
 	}
+	steps := make([]string, 0, len(plan))
+	for _, st := range plan {
+		steps = append(steps, st.String())
+	}
+	res.Sample = map[string]interface{}{
+		"seed": cfg.Seed, "profile": cfg.Profile, "voters": cfg.Voters, "non_voters": cfg.NonVoters,
+		"election_ms": cfg.ElectionMs, "heartbeat_ms": cfg.HeartbeatMs, "lease_ms": cfg.LeaseMs,
+		"net": fmt.Sprintf("delay %d-%dus, heavy tail %d/1000 up to %dms, drop %d/1000, dup %d/1000, reply loss %d/1000, stale re-delivery %d/1000",
+			cfg.MinDelayUs, cfg.MaxDelayUs, cfg.HeavyTailPm, cfg.HeavyTailMs, cfg.DropPm, cfg.DupPm, cfg.ReplyLossPm, cfg.RedeliverPm),
+		"snapshot_threshold": cfg.SnapThreshold, "filler_bytes": cfg.FillerBytes, "lost_unsynced": cfg.LostUnsynced,
+		"clients": cfg.Clients, "plan": steps,
+		"outcome": fmt.Sprintf("%d scheduler steps, %d virtual ms, %d operations applied, %d leaders elected, %d crashes, %d violations",
+			res.Steps, res.VirtualMs, res.OpsApplied, c.Rec.Probes["leader-elected"], c.Stats.Crashes, len(res.Violations)),
+	}
 	return res
 }
 
@@ -141,6 +156,9 @@ func (c *Cluster) controller(plan Plan, res *Result) {
 	}
 	// Fault plan.
 	c.Sim.GoProc(c.Sim.Harness, "injector", func() { c.runPlan(plan.Sorted(), faultEnd) })
+	if cfg.NonVoters > 0 {
+		c.Sim.GoProc(c.Sim.Harness, "nonvoter-setup", func() { c.setupNonVoters(faultEnd) })
+	}
 	c.extraTasks(faultEnd)
 	c.sleepUntil(faultEnd)
 	if !cfg.NoHeal {
